@@ -8,8 +8,9 @@ package serializers
 // ---------------------------------------------------------------------------
 
 //@ func SPDX23.Serialize
-//@   props C07, C11
+//@   props C07, C11, C06
 //@   assigns \nothing
+//@   ensures [C06:decl:spdx23] result1 == nil ==> typeis(result0, *v2_3.Document) && as(result0, *v2_3.Document) != nil && as(result0, *v2_3.Document).SPDXVersion == "SPDX-2.3"
 
 // Render is handed what Serialize of the same driver returned (writer protocol)
 //@ func SPDX23.Render
@@ -18,8 +19,9 @@ package serializers
 //@   assigns \nothing
 
 //@ func CDX.Serialize
-//@   props C07, C11
+//@   props C07, C11, C06
 //@   assigns \nothing
+//@   ensures [C06:decl:cdx] result1 == nil ==> typeis(result0, *cyclonedx.BOM) && as(result0, *cyclonedx.BOM) != nil && as(result0, *cyclonedx.BOM).BOMFormat == "CycloneDX"
 //@   invariant L0: doc != nil && rootfresh(doc) && doc.Metadata != nil && rootfresh(doc.Metadata) && doc.Metadata.Lifecycles != nil && rootfresh(doc.Metadata.Lifecycles) && (arr(*doc.Metadata.Lifecycles) == nil || rootfresh(arr(*doc.Metadata.Lifecycles)))
 
 //@ func CDX.Render
